@@ -4,6 +4,7 @@ import (
 	"fmt"
 	"go/token"
 	"go/types"
+	"os"
 	"strings"
 
 	"golang.org/x/tools/go/ssa"
@@ -350,9 +351,15 @@ func ruleC04Verify(rule string) ruleFn {
 				if !isPhi || depth > 4 {
 					return
 				}
-				for _, e := range p.Edges {
+				for i, e := range p.Edges {
 					if _, isC := strip(e).(*ssa.Const); isC && !isLoopHeader(p.Block()) {
-						okInit = false
+						// unless the comparison cannot be reached through that edge at all (the constant
+						// belongs to an error exit of the search that is returned before)
+						pb := p.Block().Preds[i]
+						reach := Query{Fn: fn, Start: pb.Instrs[len(pb.Instrs)-1], IsSite: func(in ssa.Instruction) bool { return in == ssa.Instruction(cl) }}.Run()
+						if len(reach) > 0 {
+							okInit = false
+						}
 					}
 					chk(e, depth+1)
 				}
@@ -364,12 +371,15 @@ func ruleC04Verify(rule string) ruleFn {
 		foundLoop := false
 		for _, ea := range allAtoms(fn, R) {
 			as := ea.Atom.String()
+			if os.Getenv("JC_DEBUG_VERIFY") != "" && strings.Contains(as, "getReplicaCheckpoint") {
+				fmt.Println("DBG atom:", as, "| want prefix:", rwChain+"#0[+count{")
+			}
 			if as == eqAtom(rwChain+"#0[*]", ckpt) {
 				foundLoop = true
 			}
 			// the position may be rendered as a count of non-matching iterations (`for i := 0; ...; i++`
 			// with the break in front of the increment)
-			if strings.HasSuffix(as, " ==0") && strings.Contains(as, rwChain+"#0[+count{") && strings.Contains(as, ckpt) && !strings.Contains(as, "len(") {
+			if strings.HasPrefix(as, "+"+rwChain+"#0[") && strings.HasSuffix(as, "] -"+ckpt+" ==0") {
 				foundLoop = true
 			}
 		}
